@@ -155,4 +155,21 @@ def socks5Handshake (greeting request : Bytes) (bound : Addr) : Outcome :=
     | _ => .refused (Socks5.encodeInitialResponse 0)
   | _ => .refused []
 
+/-- the application closes its connection after the bytes received so far (end of stream during the handshake):
+`FramedRead` reports the end — with bytes of an incomplete message left over, or with nothing — as an error of
+`no_auth`, which has answered the method selection iff the greeting was complete -/
+def socks5AtEof (greeting request : Bytes) (bound : Addr) : Outcome :=
+  match socks5Handshake greeting request bound with
+  | .wait =>
+    (match Socks5.decodeInitialRequest greeting with
+     | .ok _ => .refused (Socks5.encodeInitialResponse 0)
+     | _ => .refused [])
+  | o => o
+
+/-- the same for an HTTP-proxy client: the peek loops give up at end of stream -/
+def httpAtEof (b : Bytes) : Outcome :=
+  match httpHandshake b with
+  | .wait => .refused []
+  | o => o
+
 end Octo.Hs
